@@ -15,10 +15,13 @@ Definition blen (l : bytes) : Z := Z.of_nat (length l).
 Definition take (n : Z) (l : bytes) : bytes := firstn (Z.to_nat n) l.
 Definition drop (n : Z) (l : bytes) : bytes := skipn (Z.to_nat n) l.
 Definition zeros (n : Z) : bytes := repeat 0 (Z.to_nat n).
-(* `length l < n`, computed by looking at no more than n elements (shorter_spec in PlProofs:
+(* `length l < n` without computing the length (shorter_spec in PlProofs:
    shorter l n = (blen l <? n)); keeps the evaluation of the model linear on long inputs *)
-Definition shorter (l : bytes) (n : Z) : bool :=
-  (0 <? n) && match skipn (Z.to_nat (n - 1)) l with [] => true | _ :: _ => false end.
+Fixpoint shorter (l : bytes) (n : Z) : bool :=
+  match l with
+  | [] => 0 <? n
+  | _ :: t => if n <=? 0 then false else shorter t (n - 1)
+  end.
 Definition byte_ok (b : Z) : Prop := 0 <= b <= 255.
 Definition bytes_ok (l : bytes) : Prop := Forall byte_ok l.
 Definition byte_okb (b : Z) : bool := (0 <=? b) && (b <=? 255).
